@@ -70,6 +70,8 @@ M = [
  ("m44_explicit_zeros_stored", ["C05", "C07", "C08"], "tucan/io/molfile_v3000_reader.py", "REVERT", "8c661ee"),
  ("m45_iso_clears_dt", ["C08"], "tucan/io/molfile_v2000_reader.py", "REVERT", "51b82e3"),
  ("m46_header_spliced", ["C06"], "tucan/io/molfile_v3000_reader.py", "REVERT", "f8aeba5"),
+ ("m47_two_line_records_scanned", ["C08"], "tucan/io/molfile_v2000_reader.py", "REVERT", "bcd19e8"),
+ ("m48_huge_literal_valueerror", ["C10"], "tucan/parser/parser.py", "REVERT", "6fee700"),
 ]
 
 def main():
